@@ -1366,4 +1366,22 @@ theorem planStaged_sound (script : List Res) (c : CheckResult) (h : c ∈ planSt
       exact ⟨r, h1, rfl, he, h2⟩
     · simp [he] at h
 
+/-! ## the batch limit over many calls -/
+
+/-- why fairness of the batch limit is a matter of the map's iteration order and not of any single call: with the
+SAME (sorted) order in every call and the two first records failing again each time, the third record is due at
+every call, every call is a legal one (`queueOk` holds of the log), and it is never handed out.  Go's randomised
+`range` is what rules this out; the oracle therefore checks it statistically (`fairOk`, over `fairRounds` calls). -/
+theorem fixed_order_starves :
+    let ops : List Op :=
+      [.enq 0 (rr "A" 1 1), .enq 0 (rr "B" 1 1), .enq 0 (rr "C" 1 1),
+       .deq 10 2 ["A", "B", "C"], .enq 10 (rr "A" 1 1), .enq 10 (rr "B" 1 1),
+       .deq 20 2 ["A", "B", "C"], .enq 20 (rr "A" 1 1), .enq 20 (rr "B" 1 1),
+       .deq 30 2 ["A", "B", "C"], .enq 30 (rr "A" 1 1), .enq 30 (rr "B" 1 1),
+       .deq 40 2 ["A", "B", "C"]]
+    queueOk qcfg (runOps qcfg ops).2.reverse = true ∧
+    (outs (runOps qcfg ops)).all (fun o => !o.2.any (fun x => x.1 == "C")) = true ∧
+    fairOk 3 2 fairRounds [fairRounds, fairRounds, 0] 0 0 = false := by
+  decide
+
 end AutoVerif.C12
